@@ -850,7 +850,7 @@ def c19_families(rng, tier):
                 toks += ["set", str(rng.below(n_slots)), str(w)]
                 cats["set"] += 1
             elif k == 7:
-                toks += ["arr"] + [str(rng.next() & 0xFFFFFFFF) for _ in range(n_slots)]
+                toks += ["refarr" if rng.below(3) == 0 else "arr"] + [str(rng.next() & 0xFFFFFFFF) for _ in range(n_slots)]
                 cats["arr"] += 1
             elif k == 8:
                 toks += ["new"] + [str(rng.next() & 0xFFFFFFFF) for _ in range(n_slots)]
